@@ -450,7 +450,12 @@ declare
 begin
 
     select true from accounts where ledger = _ledger and address = posting ->> 'source' into _source_exists;
-    select true from accounts where ledger = _ledger and address = posting ->> 'destination' into _destination_exists;
+    if posting ->> 'source' = posting ->> 'destination' then
+        -- the source move is inserted first: when the destination move is inserted the account has a move, whatever it was before
+        _destination_exists = true;
+    else
+        select true from accounts where ledger = _ledger and address = posting ->> 'destination' into _destination_exists;
+    end if;
 
     perform upsert_account(_ledger, posting ->> 'source', _account_metadata -> (posting ->> 'source'), _insertion_date);
     perform upsert_account(_ledger, posting ->> 'destination', _account_metadata -> (posting ->> 'destination'),
